@@ -158,20 +158,22 @@ func printFileLate(f *dst.File) (string, error) {
 
 const otherFileSrc = "package other\n\n// c\nvar (\n\ta = 1\n\n\tb = `x\ny`\n)\n\nfunc f() {\n\ta()\n\n\t/*\n\t   m\n\t*/\n\tb()\n}\n"
 
-// printFileBeforeAnother restores f, lets the same Restorer restore another file, and only then
-// prints f's ast (a package restored as a whole and printed afterwards).
-func printFileBeforeAnother(f *dst.File) (string, error) {
+// printFileBeforeAnother restores f, optionally lets the same Restorer restore another file, and only
+// then prints f's ast (a package restored as a whole and printed afterwards).
+func printFileBeforeAnother(f *dst.File, another bool) (string, error) {
 	r := decorator.NewRestorer()
 	af, err := r.RestoreFile(f)
 	if err != nil {
 		return "", err
 	}
-	other, err := decorator.Parse(otherFileSrc)
-	if err != nil {
-		panic(err)
-	}
-	if _, err := r.RestoreFile(other); err != nil {
-		panic(err)
+	if another {
+		other, err := decorator.Parse(otherFileSrc)
+		if err != nil {
+			panic(err)
+		}
+		if _, err := r.RestoreFile(other); err != nil {
+			panic(err)
+		}
 	}
 	var buf bytes.Buffer
 	err = format.Node(&buf, r.Fset, af)
@@ -183,9 +185,11 @@ func printFileBeforeAnother(f *dst.File) (string, error) {
 func printFileBoth(f *dst.File) (out string, err error, differs string) {
 	out, err = printFile(f)
 	if err == nil {
-		early, eerr := printFileBeforeAnother(f)
-		if eerr != nil || early != out {
-			return out, err, fmt.Sprintf("the print changes when the same Restorer restores another file before the first is printed (error: %v)\n%s", eerr, diffDesc(out, early))
+		// like against like: RestoreFile + format.Node with and without the second restore in between
+		alone, aerr := printFileBeforeAnother(f, false)
+		early, eerr := printFileBeforeAnother(f, true)
+		if (aerr == nil) != (eerr == nil) || early != alone {
+			return out, err, fmt.Sprintf("the print changes when the same Restorer restores another file before the first is printed (errors: %v / %v)\n%s", aerr, eerr, diffDesc(alone, early))
 		}
 	}
 	late, lerr := printFileLate(f)
